@@ -265,13 +265,16 @@ namespace verif
             std::string pre = "c" + std::to_string(case_no) + "b" + std::to_string(b);
             if (held[b])
             {
+                const std::thread::id app = std::this_thread::get_id();
                 // the holder's completion callback runs on the client's I/O thread and keeps it there
                 try
                 {
                     client.get(url_of(Good, pre + "hold")).send().then(
-                        [sh, b](Http::Response) {
+                        [sh, b, app](Http::Response) {
                             sh->in_callback[b].open();
-                            sh->go_seen[b] = sh->go[b].wait(8000);
+                            // the response beat the attach: this runs on the application thread, there is nothing to hold
+                            if (std::this_thread::get_id() != app)
+                                sh->go_seen[b] = sh->go[b].wait(8000);
                         },
                         Async::IgnoreException);
                 }
